@@ -179,5 +179,6 @@ def _resolve_json_pointers(pattern: str, content: Dict[str, Any]) -> List[jsonpo
 
     ret: List[jsonpointer.JsonPointer] = []
     for matched_parts, _ in matched:
-        ret.append(jsonpointer.JsonPointer("/" + "/".join(matched_parts)))
+        # from_parts() escapes '~' and '/' inside keys (RFC 6901)
+        ret.append(jsonpointer.JsonPointer.from_parts(matched_parts))
     return ret
